@@ -252,6 +252,6 @@ UNIT = dict(
     name='jsonw', regions=[dict(name='state_type', file=J, start=r'typedef enum \{\s*st_init', end=r'\} state_type;')], pre=PRE, functions=functions, jobs=jobs,
     trusted=['jsonw: parse_string: the stream buffer is a ghost input string, `str` a checked sink, read_4_digits / utf8::validate / utf16 helpers are stubs (utf8::validate is proved in unit utf8) (R10)',
              'jsonw: the Appender template parameter (string_append / stream_append) is three stubs that assert what each append may contain (R2/R7/R10)'],
-    not_covered={'C11': ['the rest of the parser (tokenizer dispatch, nesting bound, unique keys), number printing/parsing, tree construction, typed extraction, locale independence: '
-                         'only the string writer and the string-token parser (control characters, escape set, surrogate pairing, UTF-8 check) are under contract']},
+    not_covered={'C11': ['number parsing and printing (operator>> / operator<< of libstdc++ on double: external), typed extraction, locale independence, tree construction (json::value copy / map insert are recorders)',
+                         'the composition parse(to_string(v)) == v: the writer contract (every byte once, escaped exactly when required) and the string-token parser contract are its two halves']},
 )
